@@ -15,6 +15,11 @@ Graph classes
   ressolved a discipline with a residual / state pair (r, w) that solves its own state equation
             (``io.residual_to_state_variable``, ``io.state_equations_are_solved = True``) coupled with a plain one
   resmda    the same pair left to the MDA (``state_equations_are_solved = False``)
+  resweakup | resweakdown | reschain | resweakmda   (EXTRA_GRAPHS) the discipline with the (r, w) pair belongs to NO strongly
+            coupled group: upstream of a strongly coupled pair | downstream of it (the state itself is requested) | no
+            strongly coupled pair at all | upstream with the state equation left to the (fixed-point) MDA.  The selection
+            of what each discipline must be linearized for (``traverse_add_diff_io_mda``) treats the members of the
+            strongly coupled groups and the other disciplines by two different passes.
 
 Oracle (independent of gemseo, dense numpy): y = every variable that is produced by one discipline and read by
 some discipline (couplings, self-couplings, states);  R = Y(y, x) - y for explicit variables, R = r(y, x) for a
@@ -45,6 +50,15 @@ Enumeration (E2, ``mc.product`` + ``mc.core.pmap``)
             to ``mda.assembly.total_derivatives`` (the public entry point that caches the minimal couplings of the last
             (inputs, outputs) pair).  Every ordered pair of the request alphabet.
 
+  cachetol  successive linearizations of the SAME objects with different cache tolerances and points: sequences of steps
+            [tolerance] x [same point | neighbour x (1 + 1e-3) | the other point].  Assembly level:
+            ``JacobianAssembly.total_derivatives(converged data of the point, ..., exec_cache_tol in {None, 0.0, 1e-2})``;
+            MDA level: ``mda.lin_cache_tol_fact in {0, 1e-2 / tolerance}; mda.linearize(x)``.  The harness keeps the model
+            of the documented semantics (``run_cachetol``): every step that runs entirely under a zero cache tolerance must
+            return the closed form AT ITS OWN POINT - the systems are quadratic in x, so partials left over from the
+            neighbour are 3e-4 away, five orders above the bound.  The converged data of the assembly level are computed by
+            the harness (``Oracle.solution``: the systems are affine in y), never by an MDA that shares the caches.
+
   dtype     the disciplines declare their Jacobian blocks as int64 / float32 / a mix per block (7 policies, see DTYPES;
             integer-coefficient variants of the systems, so an int64 block holds the exact partials; with integer couplings
             the MDA is Newton's and the harness picks the first integer pattern with kappa_2(dR/dy) <= 30) x {dense, CSR} x
@@ -74,6 +88,19 @@ Oracle boundaries (rule 1)
 * ``linearize(compute_all_jacobians=True)`` on MDAJacobi with an upstream weakly coupled discipline raises "is both a
   coupling and a design variable" (the MDA keeps the weak couplings among "all inputs"; also on Sobieski): accepted
   reading, counted; notes/fixes/c07_mda_compute_all_jacobians_weak_couplings.diff proposes to drop them.
+* cache tolerances: ``exec_cache_tol`` > 0 / ``lin_cache_tol_fact`` > 0 ("the tolerance factor to cache the Jacobian": the
+  disciplines are not re-executed and an entry cached within the tolerance is used) are documented approximations: the
+  value of a step run under a positive tolerance is not judged; ``exec_cache_tol=None`` "sets no tolerance", i.e. leaves
+  a loose one in place: not judged either.  At MDA level the tolerance is put on the discipline caches by the
+  linearization, after the MDA execution of the same ``linearize`` call: the first step after the factor is set back to
+  0 still executes the MDA under the loose tolerance (the couplings it linearizes at are those of an approximate cache
+  hit) - a consequence of the documented mechanism, not judged; the step after it is.  An answer the MDA serves again
+  from its own cache for a step that was not judged is not judged.  All of them must still not raise.
+* the EXTRA_GRAPHS are crossed with the GMRES-type solvers only (thorough tier; the quick tier uses the default solver
+  there): on resweakup CGS stagnates (SciPy's own ``cgs`` on the harness's dense dR/dy: info = 1000, relative residual
+  0.3; gemseo logs "did not converge" and returns the iterate) - same family and same cause as the breakdowns on weakup.
+* ``resweakmda`` only with MDAGaussSeidel / MDAJacobi (see EXTRA_KINDS): nobody converges the state equation of a weakly
+  coupled discipline in MDAChain (executed once) and MDANewtonRaphson refuses weak couplings.
 * the residual output ``r`` of a state equation is not in the request pools; when it is returned (ALL) its total
   derivative must be the zero block the formula gives.
 """
@@ -166,10 +193,55 @@ def system_specs() -> dict:
             ],
             "req_in": [xb, xc, xa], "req_out": [fb, "w", fa],
         },
+        # -- disciplines with a residual / state pair that are only WEAKLY coupled (member of no strongly coupled group) --
+        "resweakup": {  # weakup whose upstream discipline has a state equation it solves itself
+            "sizes": {**base, yc: ys[0], ya: ys[1], yb: ys[2], "w": ys[1], "r": ys[1]},
+            "discs": [
+                {"name": "D2", "ins": [xb, xc, "w"], "outs": ["w", "r", yb, fb], "state": {"r": "w"}, "solved": True},
+                {"name": "D0", "ins": [xb, yb, ya], "outs": [yc]},
+                {"name": "D1", "ins": [xa, yc], "outs": [ya, fa]},
+            ],
+            "req_in": [xb, xc, xa], "req_out": [fb, yb, fa],
+        },
+        "resweakdown": {  # weakdown whose downstream discipline has a state equation it solves itself; the state is requested
+            "sizes": {**base, yc: ys[0], ya: ys[1], "w": ys[2], "r": ys[2]},
+            "discs": [
+                {"name": "D2", "ins": [xb, xc, ya], "outs": [yc, fb]},
+                {"name": "D0", "ins": [xb, yc], "outs": [ya]},
+                {"name": "D1", "ins": [xa, yc, ya, "w"], "outs": ["w", "r", fa], "state": {"r": "w"}, "solved": True},
+            ],
+            "req_in": [xb, xc, xa], "req_out": [fb, "w", fa],
+        },
+        "reschain": {  # no strongly coupled group at all: state discipline -> discipline computing an output
+            "sizes": {**base, yb: ys[2], "w": ys[1], "r": ys[1]},
+            "discs": [
+                {"name": "D2", "ins": [xb, xc, "w"], "outs": ["w", "r", yb, fb], "state": {"r": "w"}, "solved": True},
+                {"name": "D0", "ins": [xb, xa, yb], "outs": [fa]},
+            ],
+            "req_in": [xb, xc, xa], "req_out": [fb, yb, fa],
+        },
+        "resweakmda": {  # resweakup with the state equation left to the MDA (fixed-point MDAs only, see EXTRA_KINDS)
+            "sizes": {**base, yc: ys[0], ya: ys[1], yb: ys[2], "w": ys[1], "r": ys[1]},
+            "discs": [
+                {"name": "D2", "ins": [xb, xc, "w"], "outs": ["w", "r", yb, fb], "state": {"r": "w"}, "solved": False},
+                {"name": "D0", "ins": [xb, yb, ya], "outs": [yc]},
+                {"name": "D1", "ins": [xa, yc], "outs": [ya, fa]},
+            ],
+            "req_in": [xb, xc, xa], "req_out": [fb, "w", fa],
+        },
     }
 
 
 GRAPHS = ["full3", "weakdown", "weakup", "selfc", "ressolved", "resmda"]
+# Graphs added later (state discipline outside every strongly coupled group).  They are crossed with a reduced set of the
+# other axes in the quick tier (see ``extra_cases``) so that the cost of the quick tier stays where it was.
+EXTRA_GRAPHS = ["resweakup", "resweakdown", "reschain", "resweakmda"]
+ALL_GRAPHS = GRAPHS + EXTRA_GRAPHS
+# Oracle boundary: a weakly coupled discipline whose state equation is NOT solved inside is only converged by the MDAs that
+# sweep every discipline until every resolved variable (couplings and states) is stationary; MDAChain executes a weakly
+# coupled discipline once and MDANewtonRaphson refuses weakly coupled disciplines (documented), so the converged solution
+# the statement speaks of exists for the two fixed-point MDAs only.
+EXTRA_KINDS = {"resweakmda": ["MDAGaussSeidel", "MDAJacobi"]}
 
 
 # ------------------------------------------------------------------------------------------------
@@ -351,9 +423,15 @@ def bodies(graph: str, dt: str = "f64", salt: int | None = None):
     return spec, [Body(d, spec["sizes"], produced, read, dt, salt) for d in spec["discs"]]
 
 
-def xpoint(k: int, sizes: dict) -> dict:
+NEAR = 1e-3  # relative step between a point and its neighbour (cache-tolerance histories): inside LOOSE_TOL, and the partials
+#              (Q x) move by ~3e-4, five orders above the derived bound
+
+
+def xpoint(k, sizes: dict) -> dict:
+    """Input point k (0 | 1) of the value alphabet; ``[k, n]`` = its n-th neighbour  x_k * (1 + n * NEAR)."""
+    k, n = (k, 0) if isinstance(k, int) else (int(k[0]), int(k[1]))
     base = ALPHA["points"][k]
-    return {x: base + 0.35 * i + 0.25 * np.arange(sizes[x]) * (1 if k == 0 else -1) for i, x in enumerate(X)}
+    return {x: (base + 0.35 * i + 0.25 * np.arange(sizes[x]) * (1 if k == 0 else -1)) * (1.0 + n * NEAR) for i, x in enumerate(X)}
 
 
 # ------------------------------------------------------------------------------------------------
@@ -411,6 +489,20 @@ class Oracle:
         # contraction of the plain fixed point y <- Y(y) / w <- w + r (Jacobi); Gauss-Seidel then contracts as well
         self.rho = float(max(abs(np.linalg.eigvals(A + np.eye(self.ny)))))
         self._data = data
+
+    def solution(self) -> dict:
+        """The converged coupled solution at self.x, computed by the harness (the system is affine in y:
+        R(y, x) = A y + R(0, x)), as the input data {design variables, couplings, states} of the disciplines."""
+        data = dict(self._data)  # x, y = 0
+        r0 = np.zeros(self.ny)
+        for v in self.y:
+            fn = self.residual_of.get(v, v)
+            r0[self.yoff[v]:self.yoff[v] + self.sizes[v]] = self.owner[v]._affine(fn, data)
+        ysol = np.linalg.solve(self.A, -r0)
+        out = {k: np.array(v, dtype=float) for k, v in self.x.items()}
+        for v in self.y:
+            out[v] = ysol[self.yoff[v]:self.yoff[v] + self.sizes[v]].copy()
+        return out
 
     def partials_of(self, fn: str):
         """(dF/dx, dF/dy) of output fn with every y independent (a y-variable is its own selector)."""
@@ -552,7 +644,7 @@ def _gemseo():
 
 
 MDA_KINDS = ["MDAJacobi", "MDAGaussSeidel", "MDANewtonRaphson", "MDAChain", "MDAChain/chain_linearize"]
-WEAK_GRAPHS = ("weakdown", "weakup")
+WEAK_GRAPHS = ("weakdown", "weakup", "resweakup", "resweakdown", "reschain", "resweakmda")
 
 
 def build_mda(cfg: dict, x0: dict):
@@ -745,7 +837,7 @@ _ORACLES: dict = {}
 
 
 def _oracle(graph, point, dt="f64") -> Oracle:
-    key = (ALPHA["name"], graph, point, dt)
+    key = (ALPHA["name"], graph, point if isinstance(point, int) else tuple(point), dt)
     if key not in _ORACLES:
         o = Oracle(graph, point, dt)
         spec = o.spec
@@ -754,6 +846,13 @@ def _oracle(graph, point, dt="f64") -> Oracle:
                 a, _ = o.total(fn, x)
                 b = o.monolithic(fn, x)
                 assert np.allclose(a, b, rtol=0, atol=1e-12), (graph, fn, x, a, b)
+        if dt == "f64":  # harness self-check: solution() is a fixed point of every body (states: residual zero)
+            sol = o.solution()
+            for b in o.bodies:
+                out = b.f({u: sol[u] for u in b.ins})
+                for v in b.outs:
+                    if v in sol:
+                        assert np.allclose(out[v], sol[v], rtol=0, atol=1e-11), (graph, v, out[v], sol[v])
         _ORACLES[key] = o
     return _ORACLES[key]
 
@@ -998,6 +1097,157 @@ PARTS["history"] = part_history
 
 
 # ------------------------------------------------------------------------------------------------
+# cache-tolerance histories: successive linearizations of the SAME objects with different cache tolerances
+# ------------------------------------------------------------------------------------------------
+LOOSE_TOL = 1e-2  # exec_cache_tol of a "loose" step (assembly level); MDA level: lin_cache_tol_fact = LOOSE_TOL / MDA_TOL
+TOLS = {"assembly": [None, 0.0, LOOSE_TOL], "mda": [0.0, LOOSE_TOL]}
+MOVES = ["same", "near", "far"]  # the point of a step relative to the point of the previous step
+
+
+def _move(point, move):
+    b, n = point
+    return [b, n] if move == "same" else [b, n + 1] if move == "near" else [1 - b, 0]
+
+
+def cachetol_steps(level: str):
+    return [[t, m] for t in TOLS[level] for m in MOVES]
+
+
+def cachetol_histories(level: str, prefix, depth: int):
+    """Every history of ``depth`` steps [tol, move] that starts with the steps of ``prefix`` (first step: [tol, "start"])."""
+    import itertools
+
+    return [[*map(list, prefix), *map(list, rest)] for rest in itertools.product(cachetol_steps(level), repeat=depth - len(prefix))]
+
+
+def run_cachetol(cfg, level, start, request, history):
+    """One history on fresh objects.  -> [per-step dict(checked, bad, point, ...)].
+
+    Model of the documented semantics (what the oracle may rely on):
+    * assembly level - ``exec_cache_tol``: "the discipline cache tolerance to [use] when calling the linearize method. If None,
+      no tolerance is set": a number sets the tolerance of every discipline cache before the disciplines are executed and
+      linearized at the given data, None leaves the caches as they are.  A step is CHECKED iff the tolerance in force
+      during it is 0 (tol == 0.0, or None with no loose tolerance set since the objects were created / since the last 0.0).
+    * MDA level - ``lin_cache_tol_fact`` ("the tolerance factor to cache the Jacobian", exec_cache_tol = factor * MDA
+      tolerance, the disciplines are not re-executed when it is positive): the tolerance is put on the discipline caches
+      when the MDA is *linearized*, i.e. after the MDA execution that precedes it.  A step is CHECKED iff its factor is 0,
+      the previous step actually linearized with factor 0 (tolerance known to be 0 during the execution of this step) and
+      the answer cannot be the one cached by the MDA for an unchecked step at the same point.
+    Everything else (a step under a positive tolerance, the first step after a positive factor was set back to 0, an
+    answer served again from the MDA cache) is the documented approximation: executed, must not raise, value not judged."""
+    spec = system_specs()[cfg["graph"]]
+    ins, outs = request
+    steps = []
+    _, _, discs, mda = build_mda(cfg, xpoint(0, spec["sizes"]))
+    if level == "mda":
+        mda.add_differentiated_inputs(list(ins))
+        mda.add_differentiated_outputs(list(outs))
+        residual_variables, couplings = {}, []
+    else:
+        residual_variables = {}
+        for d in mda.disciplines:
+            residual_variables.update(d.io.residual_to_state_variable)
+        couplings = sorted(set(mda.coupling_structure.all_couplings) - set(residual_variables) - set(residual_variables.values()))
+    point = [start, 0]
+    state = 0.0          # tolerance known to be on the discipline caches (None = unknown)
+    prev = None          # (point, checked) of the previous step
+    for k, (tol, move) in enumerate(history):
+        if k:
+            point = _move(point, move)
+        orc = _oracle(cfg["graph"], point)
+        runs0 = [d.n_run for d in discs]
+        rec = {"tol": tol, "move": move, "point": list(point), "bad": []}
+        if level == "assembly":
+            if tol is not None:
+                state = tol
+            checked = state == 0.0
+        else:
+            checked = tol == 0.0 and state == 0.0 and (prev is None or prev[0] != point or prev[1])
+        try:
+            with _guard():
+                if level == "assembly":
+                    jac = mda.assembly.total_derivatives(
+                        orc.solution(), list(outs), list(ins), couplings, linear_solver=cfg.get("solver", "DEFAULT"),
+                        mode=cfg.get("mode", "auto"), matrix_type=cfg.get("mtype", "matrix"), use_lu_fact=bool(cfg.get("lu")),
+                        exec_cache_tol=tol, residual_variables=residual_variables, rtol=LIN_TOL)
+                else:
+                    mda.lin_cache_tol_fact = tol / MDA_TOL
+                    jac = mda.linearize({k_: v.copy() for k_, v in orc.x.items()})
+        except _RequestTimeout:
+            rec["bad"].append(("linearize-terminates", f"no answer within {REQUEST_TIMEOUT} s"))
+            rec["timeout"] = True
+            steps.append(rec)
+            break
+        except Exception as e:
+            rec["bad"].append(("linearize-raises", f"{type(e).__name__}: {str(e)[:300]}"))
+            steps.append(rec)
+            break
+        if level == "mda":  # the tolerance the library is documented to leave on the discipline caches
+            if tol != 0.0:
+                state = tol
+            elif prev is None or prev[0] != point:  # a new point: the MDA cannot answer from its own cache, it linearizes
+                state = 0.0
+            # factor 0 at the point of the previous step: the MDA may answer from its cache without linearizing -> unchanged
+        rec["checked"] = checked
+        rec["disciplines_executed"] = [a - b for a, b in zip([d.n_run for d in discs], runs0)]
+        if checked:
+            b, worst = check_jac(jac, orc, ins, outs)
+            rec["bad"] += b
+            rec["worst_error_over_bound"] = worst
+        prev = (list(point), checked)
+        steps.append(rec)
+    return steps
+
+
+def _tol_label(t):
+    return "none" if t is None else "zero" if t == 0.0 else "loose"
+
+
+def part_cachetol(case, tally):
+    cfg, level, start = case["cfg"], case["level"], case["start"]
+    spec = system_specs()[cfg["graph"]]
+    request = case.get("request") or [spec["req_in"], spec["req_out"]]
+    histories = case.get("histories") or cachetol_histories(level, case["prefix"], case["depth"])
+    out = {"violations": [], "runs": []}
+    for history in histories:
+        try:
+            steps = run_cachetol(cfg, level, start, request, history)
+        except Exception as e:
+            steps = [{"tol": history[0][0], "move": "start", "point": [start, 0], "bad": [("linearize-raises", f"build: {type(e).__name__}: {str(e)[:300]}")]}]
+        loose_before = False  # a positive tolerance was used by an earlier step
+        for k, rec in enumerate(steps):
+            prefix = history[:k + 1]
+            label = "->".join(f"{_tol_label(t)}:{m}" for t, m in prefix)
+            # the step is a non-trivial check when a loose tolerance was in force earlier and the point is a neighbour of
+            # the previous one: an approximate cache hit is possible if the tolerance was not reset
+            nontrivial = bool(rec.get("checked")) and loose_before and rec["move"] in ("near", "same")
+            for inv, msg in rec["bad"]:
+                sig = signature(inv, cfg, "cache-tolerance-history", msg)
+                sig.update(level=level, step=f"tolerance {_tol_label(rec['tol'])}, {rec['move']} point" + (", after a loose tolerance" if loose_before else ""))
+                tally.violation(sig, {**case, "histories": [prefix]},
+                                f"{inv} (step {k + 1} of the history {label}, {level} level): {msg}\n  config={cfg} start={start} request={request} "
+                                f"history={prefix} [tolerance, point relative to the previous step]")
+                out["violations"].append({"invariant": inv, "history": prefix, "message": msg})
+            executed = rec.get("disciplines_executed")
+            hit = "-" if executed is None else "no-discipline-run" if not any(executed) else "some-disciplines-run" if not all(executed) else "all-run"
+            tally.case((cfg_key(cfg), level, start, repr(request), repr(prefix)), nontrivial=nontrivial,
+                       outcome=f"cachetol:{level}:{_tol_label(rec['tol'])}:{rec['move']}:{'after-loose' if loose_before else 'clean'}:"
+                               f"{'bad' if rec['bad'] else 'checked-ok' if rec.get('checked') else 'not-judged'}:{hit}",
+                       sample={"config": cfg, "level": level, "history": prefix, "steps": steps[:k + 1]} if nontrivial and cfg["graph"] == "weakup" and k == 2 and rec["move"] == "near" else None)
+            if not rec.get("checked") and not rec["bad"]:
+                tally.count("cachetol_steps_not_judged_documented_approximation")
+            loose_before = loose_before or (rec["tol"] not in (None, 0.0))
+        out["runs"].append({"history": history, "steps": steps})
+        if any(r.get("timeout") for r in steps):
+            tally.count("requests_skipped_after_a_timeout", len(histories) - len(out["runs"]))
+            break
+    return out
+
+
+PARTS["cachetol"] = part_cachetol
+
+
+# ------------------------------------------------------------------------------------------------
 # dtype axis: the disciplines declare their Jacobian blocks as int64 / float32 / a mix per block
 # ------------------------------------------------------------------------------------------------
 DTYPES = ["int/F", "int/Rx", "int/R", "int/all", "f32/all", "f32/F", "f32/R"]
@@ -1150,6 +1400,102 @@ def cases(thorough: bool, solvers: list):
                     yield {"part": "history", "level": "assembly", "cfg": cfg, "points": [1, 1], "r1": r1, "r2": alphabet}
 
 
+def extra_cases(thorough: bool, solvers: list):
+    """F. the graphs of EXTRA_GRAPHS (a discipline with a state equation that belongs to no strongly coupled group) in the
+    same products, crossed with fewer of the other axes in the quick tier:
+      quick     MDAGaussSeidel x mode x {matrix, linear operator, matrix + LU} at the default solver, point 0; every other MDA
+                kind x {direct + matrix, adjoint + linear operator}, point 1 - all 49 requests each
+      thorough  MDAGaussSeidel x the GMRES-type solvers x both points; the other kinds x mode x matrix type x LU; the three
+                representations of the partials; the request histories at both levels (reduced request alphabet)."""
+    default_lin = linear_configs(["DEFAULT"], ["DEFAULT"])
+    two_lin = [{"mode": "direct", "mtype": "matrix", "lu": False, "solver": "DEFAULT"},
+               {"mode": "adjoint", "mtype": "linear_operator", "lu": False, "solver": "DEFAULT"}]
+    # Oracle boundary: three of these graphs have the upstream weakly coupled discipline of ``weakup`` (rows -I: the right-hand
+    # sides are eigenvectors of dR/dy^T), on which the solvers built on the two-sided Lanczos recurrence break down
+    # (RuntimeError, accepted on weakup) or - with the state block in front - stagnate: scipy.sparse.linalg.cgs applied by the
+    # harness to its own dense dR/dy of resweakup returns info = 1000 with a relative residual 0.3, gemseo logs "The linear
+    # solver CGS did not converge" and hands the iterate over.  A limitation of those methods on these matrices (as in the
+    # dtype part): the graphs of this part are crossed with the GMRES-type solvers only, the six first graphs keep the full
+    # solver product.
+    gmres_type = [s_ for s_ in solvers if s_ not in LANCZOS_TYPE]
+    full_lin = linear_configs(gmres_type, gmres_type)
+    dflt = {"mode": "auto", "mtype": "matrix", "lu": False, "solver": "DEFAULT"}
+
+    def kinds_of(graph):
+        ks = EXTRA_KINDS.get(graph, MDA_KINDS)
+        return [DEFAULT_KIND] + [k for k in ks if k != DEFAULT_KIND]
+
+    for point in ((0, 1) if thorough else (0,)):
+        for lin in (full_lin if thorough else default_lin):
+            for graph in EXTRA_GRAPHS:
+                yield {"part": "product", "cfg": {"graph": graph, "mda": DEFAULT_KIND, **lin}, "point": point, "requests": "all"}
+    for lin in (default_lin if thorough else two_lin):
+        for graph in EXTRA_GRAPHS:
+            for kind in kinds_of(graph)[1:]:
+                yield {"part": "product", "cfg": {"graph": graph, "mda": kind, **lin}, "point": 1, "requests": "all"}
+    if not thorough:
+        return
+    for rep, fill in (("csr", "requested"), ("operator", "requested"), ("dense", "all")):
+        for lin in default_lin:
+            for graph in EXTRA_GRAPHS:
+                yield {"part": "product", "cfg": {"graph": graph, "mda": DEFAULT_KIND, **lin, "rep": rep, "fill": fill}, "point": 1, "requests": "all"}
+    for graph in EXTRA_GRAPHS:
+        cfg = {"graph": graph, "mda": DEFAULT_KIND, **dflt}
+        for points in ([0, 1], [1, 1]):
+            for r1 in history_requests(cfg, "reduced") + [ALL]:
+                yield {"part": "history", "level": "mda", "cfg": cfg, "points": points, "r1": r1, "r2": "reduced"}
+        for r1 in history_requests(cfg, "reduced"):
+            yield {"part": "history", "level": "assembly", "cfg": cfg, "points": [1, 1], "r1": r1, "r2": "reduced"}
+
+
+CACHETOL_KINDS = ["MDAGaussSeidel", "MDAJacobi", "MDANewtonRaphson", "MDAChain"]
+CACHETOL_QUICK3 = ["full3", "selfc", "ressolved", "resweakup"]  # quick tier: 3-step assembly-level histories on these graphs, 2-step on the others
+#   MDAChain(chain_linearize=True) composes the Jacobians of its inner MDAs by the chain rule and never reads its own
+#   lin_cache_tol_fact: not a configuration of this part.
+
+
+def cachetol_cases(thorough: bool):
+    """G. histories of linearizations with different cache tolerances on the same objects (see ``run_cachetol``).
+      assembly level  steps [exec_cache_tol in {None, 0.0, LOOSE_TOL}] x [point: same | neighbour | far]: every history of
+                      3 steps on the graphs of CACHETOL_QUICK3 and of 2 steps on the others (thorough: 3 steps everywhere,
+                      4 steps for the default configuration on the first six graphs; 2 more linear configurations, a
+                      one-input one-output request, both start points)
+      MDA level       steps [lin_cache_tol_fact in {0, LOOSE_TOL / tolerance}] x [point]: every history of 3 steps for
+                      MDAGaussSeidel on every graph, and after a loose first step for the 3 other kinds on two graphs
+                      (thorough: 4 steps for MDAGaussSeidel, 3 steps for the other kinds, every graph)
+    One case record = the histories that share their first step (first two steps when there are 4)."""
+    dflt = {"mode": "auto", "mtype": "matrix", "lu": False, "solver": "DEFAULT"}
+    lins = [dflt] + ([{"mode": "direct", "mtype": "linear_operator", "lu": False, "solver": "DEFAULT"},
+                      {"mode": "adjoint", "mtype": "matrix", "lu": True, "solver": "DEFAULT"}] if thorough else [])
+
+    def records(level, cfg, start, depth, request=None, firsts=None):
+        for first in (TOLS[level][::-1] if firsts is None else firsts):  # loose first: the shortest failing history is met first
+            prefixes = [[[first, "start"]]] if depth <= 3 else [[[first, "start"], st] for st in cachetol_steps(level)]
+            for prefix in prefixes:
+                c = {"part": "cachetol", "level": level, "cfg": cfg, "start": start, "prefix": prefix, "depth": depth}
+                if request:
+                    c["request"] = request
+                yield c
+
+    for graph in ALL_GRAPHS:
+        spec = system_specs()[graph]
+        for lin in lins:
+            cfg = {"graph": graph, "mda": DEFAULT_KIND, **lin}
+            yield from records("assembly", cfg, 0, (4 if lin is dflt and graph in GRAPHS else 3) if thorough else 3 if graph in CACHETOL_QUICK3 else 2)
+            if thorough:
+                yield from records("assembly", cfg, 1, 3)
+                if lin is dflt:
+                    yield from records("assembly", cfg, 0, 3, request=[spec["req_in"][:1], spec["req_out"][-1:]])
+    for kind in (CACHETOL_KINDS if thorough else [DEFAULT_KIND]):
+        for graph in ALL_GRAPHS:
+            if kind in EXTRA_KINDS.get(graph, MDA_KINDS):
+                yield from records("mda", {"graph": graph, "mda": kind, **dflt}, 0, 4 if thorough and kind == DEFAULT_KIND else 3)
+    if not thorough:  # the other kinds on one strongly coupled graph and one graph with a weakly coupled state discipline
+        for kind in CACHETOL_KINDS[1:]:
+            for graph in ("full3", "resweakup"):
+                yield from records("mda", {"graph": graph, "mda": kind, **dflt}, 0, 3, firsts=[LOOSE_TOL])
+
+
 DTYPE_GRAPHS_QUICK = ["weakdown", "selfc", "ressolved"]  # a function reading every coupling (all-integer dF/dy row) | -I branches | states
 
 
@@ -1176,7 +1522,8 @@ def run(ctx):
     ALPHA = ctx.pick(ALPHABETS)
     g = _gemseo()
     only = getattr(ctx, "only", None)
-    todo = [c for c in [*cases(ctx.thorough, g["solvers"]), *dtype_cases(ctx.thorough, g["solvers"])]
+    todo = [c for c in [*cases(ctx.thorough, g["solvers"]), *dtype_cases(ctx.thorough, g["solvers"]),
+                        *extra_cases(ctx.thorough, g["solvers"]), *cachetol_cases(ctx.thorough)]
             if not only or only in (c["part"], c.get("level"), c["cfg"]["graph"], c["cfg"]["mda"], c["cfg"].get("dt"))]
     counts = {}
     for c in todo:
@@ -1185,7 +1532,7 @@ def run(ctx):
     t = ctx.tally
     t.notes["case_records"] = counts
     t.notes["linear_solvers"] = {"enumerated": g["solvers"], "excluded_need_symmetric_positive_definite": g["excluded_solvers"]}
-    t.notes["graphs"] = {gr: {"kappa_2(dR/dy)": round(_oracle(gr, 0).kappa, 3), "n_y": _oracle(gr, 0).ny, "y": _oracle(gr, 0).y} for gr in GRAPHS}
+    t.notes["graphs"] = {gr: {"kappa_2(dR/dy)": round(_oracle(gr, 0).kappa, 3), "n_y": _oracle(gr, 0).ny, "y": _oracle(gr, 0).y} for gr in ALL_GRAPHS}
     t.notes["alphabet"] = ALPHA["name"]
     pmap(_case, todo, t, jobs=ctx.jobs, chunk=2, timeout=600)
     classes = {}
@@ -1205,10 +1552,23 @@ def run(ctx):
         + "; declared dtype of the partials (7 policies: int64 / float32 / mixed per block) x {dense, CSR} x mode x matrix type x LU x ordered "
         "one- and two-output requests through JacobianAssembly.total_derivatives"
         + "; histories: every ordered pair of requests on the same MDA object through the discipline API (cumulative requests + "
-        "compute_all_jacobians) and through JacobianAssembly.total_derivatives (arbitrary pairs).  A case is non-trivial when the request "
-        "is a strict subset or contains a coupling (product) or when the two requests differ (histories)",
+        "compute_all_jacobians) and through JacobianAssembly.total_derivatives (arbitrary pairs)"
+        + "; 4 more graphs whose discipline with a residual / state pair belongs to no strongly coupled group (upstream of a coupled pair, "
+        "downstream of it, no coupled pair at all, state equation left to the MDA) x "
+        + ("the GMRES-type solvers x 2 points for MDAGaussSeidel, mode x matrix type x LU for the other kinds, 3 representations of the partials, "
+           "request histories" if ctx.thorough else "mode x {matrix, linear operator, matrix + LU} for MDAGaussSeidel and {direct + matrix, adjoint + linear "
+           "operator} for the other kinds")
+        + " x the 49 requests; cache-tolerance histories on the same objects: every sequence of "
+        + ("3-4" if ctx.thorough else "2-3") + " steps [exec_cache_tol in {None, 0, 1e-2}] x [same point | neighbour at 1e-3 | far point] through "
+        "JacobianAssembly.total_derivatives and of " + ("3-4" if ctx.thorough else "3") + " steps [lin_cache_tol_fact in {0, 1e-2 / tolerance}] x [point] through "
+        "mda.linearize, every step that runs under a zero tolerance compared with the closed form at ITS point.  A case is non-trivial when the "
+        "request is a strict subset or contains a coupling (product), when the two requests differ (request histories), when a zero-tolerance "
+        "step follows a loose one at the same point or a neighbour (cache-tolerance histories)",
         "exhaustive": True,
-        "bounds": {"graphs": GRAPHS, "disciplines": "2-3", "sizes": {"y": ALPHA["ysz"], "x": ALPHA["xsz"], "f": ALPHA["fsz"]},
+        "bounds": {"graphs": GRAPHS, "graphs_with_a_weakly_coupled_state_discipline": EXTRA_GRAPHS, "disciplines": "2-3",
+                   "cache_tolerance_histories": {"loose_tolerance": LOOSE_TOL, "neighbour_relative_step": NEAR,
+                                                 "mda_kinds": CACHETOL_KINDS if ctx.thorough else [DEFAULT_KIND, "the 3 others after a loose first step on full3 and resweakup"],
+                                                 "steps": "3-4" if ctx.thorough else "assembly level: 3 on %s, 2 on the other graphs; MDA level: 3" % CACHETOL_QUICK3}, "sizes": {"y": ALPHA["ysz"], "x": ALPHA["xsz"], "f": ALPHA["fsz"]},
                    "dtype_policies": DTYPES, "dtype_graphs": GRAPHS if ctx.thorough else DTYPE_GRAPHS_QUICK,
                    "linear_solver_tolerance": LIN_TOL, "mda_tolerance": MDA_TOL, "mda_kinds": MDA_KINDS,
                    "history_request_alphabet": "49 subsets (+ ALL), every ordered pair, for the default MDA kind; input subsets of size 1 and 3 for the other kinds" if ctx.thorough
@@ -1221,6 +1581,12 @@ def run(ctx):
             "refused by gemseo with a documented ValueError); MDANewtonRaphson on the two weak graphs goes through MDAChain(inner_mda_name=MDANewtonRaphson)",
             "linearize(compute_all_jacobians=True): a ValueError 'is both a coupling and a design variable' is accepted (MDAJacobi keeps the weak "
             "couplings among its inputs) and counted in coverage.documented_limitation_coupling_and_design_variable",
+            "cache-tolerance histories: a step executed under a positive cache tolerance (exec_cache_tol > 0, lin_cache_tol_fact > 0, None after a "
+            "positive one), the first MDA-level step after the factor is set back to 0 (its MDA execution still runs under the tolerance left on the "
+            "discipline caches, which the linearization resets afterwards) and an answer served again from the MDA's own cache for such a step are the "
+            "documented approximation: executed, must not raise, values not judged (counted in cachetol_steps_not_judged_documented_approximation)",
+            "resweakmda (weakly coupled discipline whose state equation is left to the MDA) is enumerated with MDAGaussSeidel and MDAJacobi only: "
+            "MDAChain executes a weakly coupled discipline once and MDANewtonRaphson refuses weak couplings, so no converged solution exists there",
             "execution-statistics counters are process-local during the exploration (module-level name Value of gemseo.core.execution_statistics "
             "rebound; replay uses the real one)",
         ],
